@@ -245,6 +245,10 @@ def moon_transit_event(
 
     h = int(time)
     m = int((time - h) * 60)
+    if h > 23:
+        # rounding up to the minute must not leave the day being scanned
+        h = 23
+        m = 59
 
     sd = sin(window[1].declination)
     cd = cos(window[1].declination)
